@@ -660,7 +660,9 @@ Inductive lst :=
 | LIdle         (* Connect was never called: there is no loop, c.done is never closed *)
 | LDial         (* in c.dialer.DialContext(ctx)                                    :88 *)
 | LConnect      (* in c.RetryClient.Connect(ctxConnect): waiting for CONNACK         :93 *)
-| LUp           (* connected: select { baseCli.Done(); ctx.Done(); c.disconnected } :131-145 *)
+| LHandoff      (* CONNACK accepted, RetryClient.Connect returned nil: doneOnce.Do { ctx = Background;
+                   done <- sessionPresent; close(done) } — done has capacity 1 (reconnclient.go:79,107-111) *)
+| LUp           (* connected: Retry, keep-alive, then select { baseCli.Done(); ctx.Done(); c.disconnected } *)
 | LCloseWait    (* baseCli.Close(); <-baseCli.Done()                               :152-154 *)
 | LBackoff      (* select { time.After; ctx.Done(); c.disconnected }               :158-165 *)
 | LExit.        (* returned: deferred close(c.done)                                 :83 *)
@@ -702,9 +704,13 @@ Definition lstep (st : lst) (e : renv) : option (lst * renv) :=
   | LConnect =>
       (* BaseClient.Connect's select: CONNACK / ctxConnect.Done() / connClosed; ctxConnect is also cancelled
          when c.disconnected is closed (fix 515978c, reconnclient.go:92-100) *)
-      if r_ack e then Some (LUp, set_r_first e true)
+      if r_ack e then Some (LHandoff, e)
       else if loop_ctx_done e || r_timeout e || r_base_done e || r_disc e then Some (LCloseWait, e)
       else None
+  | LHandoff =>
+      (* the send into the buffered channel cannot block, whether the caller of Connect is still in its select
+         or has left through its context: the loop goes on to supervise the connection either way *)
+      Some (LUp, set_r_first e true)
   | LUp =>
       if r_base_done e then (if r_base_err e then Some (LCloseWait, e) else Some (LExit, e))
       else if loop_ctx_done e || r_disc e then Some (LExit, e)
@@ -759,7 +765,7 @@ Definition rdisconnect (guard : bool) (dctx : bool) (st : lst) (e : renv) : rres
     let e1 := set_r_disc e true in
     if retry_disconnect_panics guard e1 then (RRPanic, st, e1)
     else
-      let e2 := match st with LUp => set_r_base e1 true false | _ => e1 end in
+      let e2 := match st with LUp | LHandoff => set_r_base e1 true false | _ => e1 end in
       let '(st', e') := lrun 8 st e2 in
       match st' with
       | LExit => (RRNil, st', e')
@@ -859,6 +865,66 @@ Definition rok (p : rphase) (z : rcause) (o : routcome) : bool :=
   | RZNone => rres_eqb (ro_res o) RRNil && ro_loop_gone o
   | _ => rres_eqb (ro_res o) RRCtx && ro_loop_gone o
   end.
+
+(* ---------- the context of Connect ending at each point of the first connection's establishment ---------- *)
+
+Inductive cxpoint :=
+| CX_BeforeDial        (* before Connect is called *)
+| CX_DuringDial        (* inside DialContext *)
+| CX_AfterSetClient    (* after SetClient, before CONNECT is written (inside BaseClient.Connect) *)
+| CX_ConnAckWait       (* CONNECT written, CONNACK not yet there *)
+| CX_InActiveCb        (* CONNACK accepted (inside the ConnState(StateActive) callback), before the hand-off; the
+                          caller has left through its context *)
+| CX_AfterReturn.      (* Connect has returned nil *)
+
+Inductive cxfollow := CF_Disconnect | CF_PeerClose | CF_Nothing.
+
+Definition cx_established (p : cxpoint) : bool := match p with CX_InActiveCb | CX_AfterReturn => true | _ => false end.
+
+(* loop state and environment at the moment the context ends *)
+Definition cx_state (p : cxpoint) : lst * renv :=
+  let noack := set_r_ctx (renv0 DOk false) true in
+  match p with
+  | CX_BeforeDial => (LDial, noack)
+  | CX_DuringDial => (LDial, set_r_ctx (renv0 DHang false) true)
+  | CX_AfterSetClient | CX_ConnAckWait => (LConnect, set_r_chtask noack true)
+  | CX_InActiveCb => (LHandoff, set_r_chtask (set_r_ctx (renv0 DOk true) true) true)
+  | CX_AfterReturn => lrun 3 LDial (set_r_ctx (renv0 DOk true) false)
+  end.
+
+Definition cx_valid (p : cxpoint) (f : cxfollow) : bool :=
+  match f with CF_PeerClose => cx_established p | _ => true end.
+
+(* result of Connect; of the follow-up (Disconnect: its result; peer close: a redial follows; nothing: true);
+   whether a loop goroutine is left although no connection was established or after Disconnect *)
+Record cxoutcome := mkCX { cx_connect : rres; cx_follow_ok : bool; cx_clean : bool }.
+
+Definition cx_run (p : cxpoint) (f : cxfollow) : cxoutcome :=
+  let '(st0, e0) := cx_state p in
+  let conn := match p with
+              | CX_AfterReturn => RRNil
+              | _ => RRCtx   (* the caller leaves through ctx.Done(): rconnect_err *)
+              end in
+  let '(st, e) := lrun 8 st0 e0 in             (* the loop runs on by itself *)
+  match f with
+  | CF_Disconnect =>
+      let '(r, st', _) := rdisconnect true false st e in
+      mkCX conn (rres_eqb r RRNil) (lgone st')
+  | CF_PeerClose =>
+      let '(st', _) := lrun 3 st (set_r_base e true true) in
+      mkCX conn (match st' with LDial | LConnect => true | _ => false end) true
+  | CF_Nothing =>
+      (* established: the loop supervises the connection (LUp); otherwise it must be gone *)
+      mkCX conn true (if cx_established p then match st with LUp => true | _ => false end else lgone st)
+  end.
+
+Definition cx_ok (p : cxpoint) (o : cxoutcome) : bool :=
+  rres_eqb (cx_connect o) (match p with CX_AfterReturn => RRNil | _ => RRCtx end) && cx_follow_ok o && cx_clean o.
+
+Definition all_cxpoints := [CX_BeforeDial; CX_DuringDial; CX_AfterSetClient; CX_ConnAckWait; CX_InActiveCb; CX_AfterReturn].
+Definition all_cxfollows := [CF_Disconnect; CF_PeerClose; CF_Nothing].
+Definition cxmatrix : list (cxpoint * cxfollow) :=
+  filter (fun k => cx_valid (fst k) (snd k)) (flat_map (fun p => map (fun f => (p, f)) all_cxfollows) all_cxpoints).
 
 Definition all_rphases := [RC_DialFail; RC_DialHang; RC_AckWithheld; RC_DialFailBackoff; RC_RefusedBackoff;
                            RC_RefusedThenDialHang; RD_Never; RD_AfterFailed;
